@@ -507,4 +507,79 @@ def run(prog: Program, tier: str) -> List[RuleResult]:
             # 'constructed from the values of the binding': an argument whose value is falsy is an argument
             guard(lambda: _hv_truth(prog)),
             # refinement(...) / alternative(...) / next_rule(...) fold the conditions of a branch like and_(...) does: none is dropped for being False
-            guard(lambda: _cond_fold(prog))]
+            guard(lambda: _cond_fold(prog)),
+            # the surgery finds the operand that held the old node by identity
+            guard(lambda: expr_identity(prog))]
+
+
+NODE_FIELDS = ("left", "right", "_parent_", "_child_", "variable", "condition", "_var_", "_conditions_root_", "_root_")
+
+
+def expr_identity(prog: Program) -> RuleResult:
+    """Variables, attributes and calls overload `==` / `!=` to *build a comparison* - an object, always true.  Code that moves nodes around in
+    the tree (which operand held the old node? is this the node we came from?) therefore asks with `is`; with `==` the answer is "yes" for
+    every variable-like node and the wrong operand is overwritten, a written branch is lost, a stray comparator is hung into the graph."""
+    r = RuleResult("EXPR-IDENTITY", "expression nodes are told apart by identity, never by the overloaded ==", floor=4)
+    base = prog.cls("symbolic.SymbolicExpression")
+    node_classes = {c.name for c in prog.subclasses(base.qual, strict=False)} | {base.name}
+    overloaders = sorted(c.name for c in prog.subclasses(base.qual, strict=False) if "__eq__" in c.methods)
+    if not overloaders:
+        r.note("no expression class overloads __eq__")
+    r.note(f"__eq__ builds a comparison in: {overloaders}")
+
+    def node_annot(a) -> bool:
+        if a is None:
+            return False
+        t = src(a).replace('"', "").replace("'", "")
+        head = t.split("[", 1)[0].strip()
+        if head in ("Optional", "Union", "TypingUnion") and "[" in t:
+            return any(x.strip().split("[", 1)[0] in node_classes for x in t[t.index("[") + 1:].rstrip("]").split(","))
+        return head in node_classes
+
+    n = 0
+    for f in sorted(prog.functions.values(), key=lambda x: x.qual):
+        if not f.module.name.endswith(("entity_query_language.rule", "entity_query_language.symbolic", "entity_query_language.conclusion_selector",
+                                       "entity_query_language.entity", "entity_query_language.conclusion")):
+            continue
+        if f.name in ("__eq__", "__ne__"):
+            continue
+        a = f.node.args
+        nodes = {p.arg for p in a.posonlyargs + a.args + a.kwonlyargs if node_annot(p.annotation)}
+        if f.cls is not None and prog.is_subclass(f.cls.qual, base.qual) and a.args and a.args[0].arg == "self" and not any(
+                isinstance(d, ast.Name) and d.id in ("staticmethod", "classmethod") for d in f.node.decorator_list):
+            nodes.add("self")
+
+        def is_node(e) -> bool:
+            if isinstance(e, ast.Name):
+                return e.id in nodes
+            if isinstance(e, ast.Attribute):
+                return e.attr in NODE_FIELDS and is_node(e.value)
+            return False
+
+        for _ in range(2):
+            for x in walk_local(f.node):
+                if isinstance(x, ast.Assign) and len(x.targets) == 1 and isinstance(x.targets[0], ast.Name) and is_node(x.value):
+                    nodes.add(x.targets[0].id)
+        cmps = [x for x in walk_local(f.node) if isinstance(x, ast.Compare) and len(x.ops) == 1 and isinstance(x.ops[0], (ast.Eq, ast.NotEq, ast.In, ast.NotIn))]
+        hits = []
+        for c in cmps:
+            l, rr = c.left, c.comparators[0]
+            if isinstance(c.ops[0], (ast.Eq, ast.NotEq)):
+                if (is_node(l) and not isinstance(rr, ast.Constant)) or (is_node(rr) and not isinstance(l, ast.Constant)):
+                    hits.append(c)
+            elif is_node(l) and isinstance(rr, (ast.List, ast.Tuple)):
+                hits.append(c)  # membership in a sequence compares with == after identity
+        if not nodes:
+            continue
+        ids = [x for x in walk_local(f.node) if isinstance(x, ast.Compare) and len(x.ops) == 1 and isinstance(x.ops[0], (ast.Is, ast.IsNot)) and (is_node(x.left) or is_node(x.comparators[0]))
+               and not isinstance(x.comparators[0], ast.Constant)]
+        if not hits and not ids:
+            continue
+        n += 1
+        r.check(not hits, f"{f.short}#nodes-compared-by-identity", site(f, hits[0]) if hits else site(f), src(hits[0])[:80] if hits else f"{len(ids)} identity comparison(s) between nodes",
+                "nodes are compared with `is`",
+                f"`{src(hits[0]) if hits else ''}` compares expression nodes with the overloaded operator: for a variable, an attribute or a call it builds a comparison object "
+                f"(always true, and hung into the expression graph) instead of answering whether the two are the same node")
+    if n < 1:
+        raise AnalysisError("EXPR-IDENTITY: no function compares expression nodes")
+    return r
